@@ -9,9 +9,15 @@ use nalgebra::{DMatrix, DVector};
 use varpro::solvers::levmar::*;
 
 pub fn small(i: usize, salt: usize) -> (i64, i64) {
-    // distinct small rationals, some negative, never zero
-    let tab: [(i64, i64); 12] = [(3, 2), (-2, 1), (5, 4), (7, 3), (-1, 2), (4, 1), (2, 3), (-5, 3), (9, 4), (1, 3), (-7, 5), (6, 5)];
-    tab[(i * 5 + salt * 7 + i * salt) % 12]
+    // pseudo-random small rationals (never zero): generic default shadow values
+    let mut h = (i as u64).wrapping_mul(0x9E3779B97F4A7C15) ^ (salt as u64).wrapping_mul(0xD1B54A32D192ED03) ^ 0x2545F4914F6CDD1D;
+    h ^= h >> 29;
+    h = h.wrapping_mul(0xBF58476D1CE4E5B9);
+    h ^= h >> 32;
+    let num = (h % 37) as i64 + 1;
+    let den = [1i64, 2, 3, 4, 5, 7][((h >> 8) % 6) as usize];
+    let sign = if (h >> 16) % 3 == 0 { -1 } else { 1 };
+    (sign * num, den)
 }
 
 pub struct Inputs<T: HS> {
@@ -25,6 +31,7 @@ pub struct Inputs<T: HS> {
     pub plants: Vec<Option<Plant<T>>>,
     pub states: Vec<State<T>>,
     pub alphas: Vec<DVector<T>>,
+    pub twin: bool,
 }
 
 /// Build the symbolic inputs.  Planted tier: A_st = U_st diag(sigma_st) V_st^T and Phi_st := W^{-1} A_st.
@@ -103,11 +110,17 @@ pub fn make_inputs<T: HS>(cfg: &Cfg, out: &mut Out<T>, nstates: usize) -> Inputs
             T::var(&format!("alpha{st}_{q}"), a, b)
         }));
     }
-    Inputs { n, m, s, p, w, y, eps, plants, states, alphas }
+    Inputs { n, m, s, p, w, y, eps, plants, states, alphas, twin: cfg.usize("twin", 0) == 1 }
 }
 
 pub fn wmat<T: HS>(inp: &Inputs<T>, i: usize) -> T {
-    inp.w.as_ref().map(|w| w[i]).unwrap_or(T::ratio(1, 1))
+    let w = inp.w.as_ref().map(|w| w[i]).unwrap_or(T::ratio(1, 1));
+    // vacuity twin: a deliberately wrong specification (row 0 weighted with w_0 + 1) that must be refuted
+    if inp.twin && i == 0 {
+        w + T::ratio(1, 1)
+    } else {
+        w
+    }
 }
 
 /// which singular values the truncated solve keeps on this path (sigma_j > eps_stored), decided on the
@@ -324,7 +337,8 @@ macro_rules! core_variant {
             let (script, final_state): (Vec<Step>, usize) = match hist {
                 0 => (vec![Step::To(0)], 0),
                 1 => (vec![Step::To(0), Step::To(1)], 1),
-                2 => (vec![Step::To(0), Step::Reject, Step::To(1)], 1),
+                // (vacuity twin: the model does NOT reject -- the C09 facts must then come out false)
+                2 => (vec![Step::To(0), if cfg.usize("twin", 0) == 1 { Step::To(0) } else { Step::Reject }, Step::To(1)], 1),
                 3 => {
                     inp.states[1].eval_fails = true;
                     (vec![Step::To(0), Step::To(1), Step::To(0)], 0)
@@ -442,9 +456,11 @@ macro_rules! core_variant {
             out.fact("C10.repeat_query_presence", o1.resid.is_some() == o2.resid.is_some() && o1.jac.is_some() == o2.jac.is_some(), "presence differs between two queries".into());
             if hist >= 1 {
                 // a freshly built problem at the final state must report identical values
-                let mut fst = inp.states[final_state].clone();
+                // (vacuity twin: the "fresh" problem is built at the OTHER state -- must be refuted)
+                let fresh_state = if inp.twin { 1 - final_state } else { final_state };
+                let mut fst = inp.states[fresh_state].clone();
                 fst.eval_fails = false;
-                let fresh_model = StubModel { params: last_alpha.clone(), states: { let mut v = inp.states.clone(); v[final_state] = fst; v }, cur: final_state, script: vec![Step::To(final_state)], calls: 0, nparams: p };
+                let fresh_model = StubModel { params: last_alpha.clone(), states: { let mut v = inp.states.clone(); v[fresh_state] = fst; v }, cur: fresh_state, script: vec![Step::To(fresh_state)], calls: 0, nparams: p };
                 let mut fb = LevMarProblemBuilder::$ctor(fresh_model).observations(yarg.clone());
                 if let Some(w) = &inp.w { fb = fb.weights(w.clone()); }
                 if let Some(e) = inp.eps { fb = fb.epsilon(e); }
